@@ -37,6 +37,11 @@ def main(argv=None):
     except runner.HarnessError as exc:
         print('HARNESS-ERROR property=%s %s' % (prop, exc), file=sys.stderr)
         return 2
+    except Exception:  # noqa: BLE001 - never let a harness bug look like a verdict
+        import traceback
+        print('HARNESS-ERROR property=%s unexpected exception\n%s'
+              % (prop, traceback.format_exc()), file=sys.stderr)
+        return 2
     cov = evidence['coverage']
     for line in lines:
         print(line)
